@@ -21,6 +21,7 @@ def decode(data):
         divs = F(1)
         notes = []
         measures = []
+        grace_chords = []
         for meas in part.findall("measure"):
             mstart = pos
             mmax = pos
@@ -41,6 +42,9 @@ def decode(data):
                     dur_e = e.find("duration")
                     dur = F(int(dur_e.text)) / divs if (dur_e is not None and not grace) else F(0)
                     onset = last_onset if chord else pos
+                    if grace and chord:
+                        # sounds together with the preceding (grace) note instead of after it
+                        grace_chords.append(e.get("id"))
                     pitch = e.find("pitch")
                     if pitch is not None:
                         step = pitch.find("step").text
@@ -56,7 +60,7 @@ def decode(data):
                         mmax = max(mmax, pos)
             measures.append((mstart, mmax, meas.get("number")))
             pos = mmax
-        out[pid] = {"notes": notes, "measures": measures}
+        out[pid] = {"notes": notes, "measures": measures, "grace_chords": grace_chords}
     out["__order__"] = order
     return out
 
